@@ -1,6 +1,7 @@
 CONSTANTS
   MaxLen = 3
   Export = TRUE
+  OtherUntil = 2
 SPECIFICATION Spec
 VIEW View
 CHECK_DEADLOCK FALSE
